@@ -414,6 +414,28 @@ const SYL: &[(u32, u32, u32, &str)] = &[(0x0915, 0x094D, 0x093F, "Deva"), (0x099
 
 fn c02(r: &mut Rng, fonts: &[FontInfo], n: u64, tr: &mut Option<std::fs::File>) {
     let mut cnt = Counters::default();
+    // dedicated pass: a generated font whose GSUB DELETES glyphs (MultipleSubst with an empty sequence) - the deleted glyph's
+    // cluster goes to a neighbour (forward at the start of the buffer, backward elsewhere), so the smallest input cluster
+    // survives and the sequence stays monotone, for deletions at the start, in the middle, at the end and in runs
+    {
+        use crate::fontgen::*;
+        let mut spec = FontSpec::basic(8);
+        spec.gsub = Some(Layout::single_feature(*b"ccmp", vec![Lookup::one(SubstSubtable::Multiple { coverage: Coverage::Glyphs(vec![1, 2]), sequences: vec![vec![], vec![]] })]));
+        let data = build(&spec);
+        let chars: Vec<u32> = spec.cmap.iter().map(|x| x.0).collect();
+        let fi = FontInfo { path: "generated:deleting".to_string(), data, chars, has_layout: true, has_morx: false, has_kern: false, scripts: vec![] };
+        for code in 0..243u32 {
+            // all texts of length 5 over {deleted 1, deleted 2, kept 3}
+            let gl: Vec<u32> = (0..5).map(|i| (code / 3u32.pow(i)) % 3).collect();
+            for (j, dir) in [None, Some(Direction::RightToLeft), Some(Direction::TopToBottom)].iter().enumerate() {
+                let cl: Vec<u32> = match (code as usize + j) % 3 { 0 => (0..5).collect(), 1 => (0..5).map(|i| 10 * i + 10).collect(), _ => vec![7, 7, 8, 9, 9] };
+                let req = Req { text: gl.iter().zip(cl.iter()).map(|(g, c)| (pua(*g), *c)).collect(), dir: *dir, script: if j == 1 { Some("Latn".to_string()) } else { None }, level: (code % 3) as u8, flags: 3, ..Default::default() };
+                trace(tr, &format!("deleting [{}]", fmt_req(&req)));
+                check_c02(&fi, &req, &mut cnt);
+                cnt.bump("deleting_font_cases");
+            }
+        }
+    }
     // dedicated pass: ONE long syllable per text, (consonant, virama) x k, consonant [, vowel sign]: the syllabic shapers
     // sort the glyphs of a syllable by position class and rely on the sort keeping tied glyphs in logical order, for any
     // number of glyphs (k on both sides of the small-slice thresholds of sorting routines)
